@@ -104,9 +104,10 @@ class FileWorld(object):
         except OSError:
             return 0
 
-    def op_write(self, chunk, pid):
+    def op_write(self, chunk, pid, dt=1):
         before = self.files()
-        self.t += 1
+        # (several writes, of different processes, may fall into one second)
+        self.t += dt
         exp = formatted(chunk, self.tf, pid, self.clock.now())
         self.stream({'data': chunk, 'pid': pid, 'name': 'stdout'})
         after = self.files()
@@ -180,7 +181,8 @@ class FileWorld(object):
                 kind = op[0]
                 if kind == 'w':
                     self.op_write(op[1].encode('utf8') if isinstance(
-                        op[1], str) else op[1], op[2])
+                        op[1], str) else op[1], op[2],
+                        op[3] if len(op) > 3 else 1)
                 elif kind == 'close':
                     self.stream.close()
                     self.check(self.files(), 'close')
@@ -285,7 +287,8 @@ class C20(Prop):
                 else:
                     size = rng.choice([1, 5, 40, 300])
                 ops.append(['w', gen_chunk(rng, size, counter),
-                            rng.choice([7, 4242, 99999])])
+                            rng.choice([7, 4242, 99999]),
+                            rng.choice([0, 0, 0.25, 1, 1, 3])])
             elif x < 0.87:
                 ops.append(['close'])
                 ops.append(['open'])
